@@ -45,15 +45,15 @@ theorem lift_parseNext (next : XNext) (t : Nat) (payload : Bytes) (allowLlc : Bo
   · simp [h1, h2, h3, h4, h5, h6, h7, h8, lift]
 
 /-- `ethernet(raw = hdr + payload)` in the extended model -/
-theorem xparse_eth (f : Nat) (ctx : Option XCtx) (h : Eth) (payload : Bytes) (hf : h.Fits) :
-    xparse (f + 1) ctx (.core .eth) (ethBytes h ++ payload) = .eth h (xEthNext (xparse f) h.type payload) := by
-  show lift (contOf (xparse f)) (ethParse probe (ethBytes h ++ payload)) = _
+theorem xparse_eth (cfg : XCfg) (f : Nat) (ctx : Option XCtx) (h : Eth) (payload : Bytes) (hf : h.Fits) :
+    xparse cfg (f + 1) ctx (.core .eth) (ethBytes h ++ payload) = .eth h (xEthNext (xparse cfg f) h.type payload) := by
+  show lift (contOf (xparse cfg f)) (ethParse probe (ethBytes h ++ payload)) = _
   rw [eth_parse probe h payload hf]
   simp only [lift, lift_parseNext]
 
-theorem xparse_vlan (f : Nat) (ctx : Option XCtx) (h : Vlan) (payload : Bytes) (hf : h.Fits) :
-    xparse (f + 1) ctx (.core .vlan) (vlanBytes h ++ payload) = .vlan h (xEthNext (xparse f) h.ethType payload) := by
-  show lift (contOf (xparse f)) (vlanParse probe (vlanBytes h ++ payload)) = _
+theorem xparse_vlan (cfg : XCfg) (f : Nat) (ctx : Option XCtx) (h : Vlan) (payload : Bytes) (hf : h.Fits) :
+    xparse cfg (f + 1) ctx (.core .vlan) (vlanBytes h ++ payload) = .vlan h (xEthNext (xparse cfg f) h.ethType payload) := by
+  show lift (contOf (xparse cfg f)) (vlanParse probe (vlanBytes h ++ payload)) = _
   rw [vlan_parse probe h payload hf]
   simp only [lift, lift_parseNext]
 
@@ -69,11 +69,11 @@ def xIp4Next (next : XNext) (frag proto : Nat) (payload : Bytes) : XPkt :=
     else .raw payload
   if isUnparsedX nx then .raw payload else nx
 
-theorem xparse_ipv4 (f : Nat) (ctx : Option XCtx) (h : IPv4) (payload : Bytes) (hf : h.Fits)
+theorem xparse_ipv4 (cfg : XCfg) (f : Nat) (ctx : Option XCtx) (h : IPv4) (payload : Bytes) (hf : h.Fits)
     (hn : h.hl * 4 + payload.length < 65536) :
-    xparse (f + 1) ctx (.core .ipv4) (ipv4Bytes h payload.length ++ payload)
-      = .ipv4 (ipv4Upd h payload.length) (xIp4Next (xparse f) h.frag h.proto payload) := by
-  show lift (contOf (xparse f)) (ipv4Parse probe (ipv4Bytes h payload.length ++ payload)) = _
+    xparse cfg (f + 1) ctx (.core .ipv4) (ipv4Bytes h payload.length ++ payload)
+      = .ipv4 (ipv4Upd h payload.length) (xIp4Next (xparse cfg f) h.frag h.proto payload) := by
+  show lift (contOf (xparse cfg f)) (ipv4Parse probe (ipv4Bytes h payload.length ++ payload)) = _
   rw [ipv4_parse probe h payload hf hn]
   unfold ipv4Dispatch xIp4Next
   by_cases h0 : h.frag ≠ 0
@@ -101,12 +101,12 @@ def udpSel (h : Udp) : Option String :=
 
 /-- `udp(raw = hdr + payload)` in the extended model: the header fields are kept and the payload goes to RIP / VXLAN
 (or stays opaque); DHCP and DNS remain outside the model -/
-theorem xparse_udp (f : Nat) (ctx : Option XCtx) (c : IPCtx) (h : Udp) (payload : Bytes) (hf : h.Fits)
+theorem xparse_udp (cfg : XCfg) (f : Nat) (ctx : Option XCtx) (c : IPCtx) (h : Udp) (payload : Bytes) (hf : h.Fits)
     (hn : payload.length + 8 < 65536) :
-    xparse (f + 1) ctx (.core .udp) (udpBytes c h payload ++ payload)
+    xparse cfg (f + 1) ctx (.core .udp) (udpBytes c h payload ++ payload)
       = .udp (udpUpd c h payload)
           (match udpSel h with
-           | some tag => contOf (xparse f) tag payload
+           | some tag => contOf (xparse cfg f) tag payload
            | none => .raw payload) := by
   have hcs := udpCsumSpec_lt c h payload
   have he := udp_encode h hf payload.length _ hn hcs
@@ -118,7 +118,7 @@ theorem xparse_udp (f : Nat) (ctx : Option XCtx) (c : IPCtx) (h : Udp) (payload 
   have c1 : ¬ (8 + payload.length < 8) := by omega
   have c2 : ¬ (payload.length + 8 < 8) := by omega
   have c3 : ¬ (8 + payload.length < payload.length + 8) := by omega
-  show udpParseX (xparse f) (udpBytes c h payload ++ payload) = _
+  show udpParseX (xparse cfg f) (udpBytes c h payload ++ payload) = _
   unfold udpParseX udpParse udpSel
   simp only [hlen, c1, if_false]
   unfold udpBytes
@@ -140,28 +140,28 @@ theorem xparse_udp (f : Nat) (ctx : Option XCtx) (c : IPCtx) (h : Udp) (payload 
 /-- **LLDP probe frame.**  For every Ethernet header with EtherType 0x88cc and every well-formed LLDP PDU, `pack()` is the
 14-byte header followed by the TLVs, `ethernet(raw = those bytes)` is the same Ethernet header with an `lldp` payload
 holding the same TLV list, and packing that again reproduces the frame. -/
-theorem lldp_frame_roundtrip (e : Eth) (c p t : Tlv) (mid : List Tlv) (he : e.Fits) (hty : e.type = 0x88cc) (hc : c.OK)
+theorem lldp_frame_roundtrip (cfg : XCfg) (e : Eth) (c p t : Tlv) (mid : List Tlv) (he : e.Fits) (hty : e.type = 0x88cc) (hc : c.OK)
     (hp : p.OK) (ht : t.OK) (tc : tlvType c = 1) (tp : tlvType p = 2) (tt : tlvType t = 3)
     (hmid : ∀ q ∈ mid, q.OK ∧ tlvType q ≠ 0) :
     let tlvs := c :: p :: t :: (mid ++ [.end_])
     let frame := ethBytes e ++ lldpBytes tlvs
-    xpack none (.eth e (.lldp tlvs)) = .ok frame ∧
-    xparseTop (.core .eth) frame = .eth e (.lldp tlvs) ∧
-    xpack none (xparseTop (.core .eth) frame) = .ok frame := by
+    xpack cfg none (.eth e (.lldp tlvs)) = .ok frame ∧
+    xparseTop cfg (.core .eth) frame = .eth e (.lldp tlvs) ∧
+    xpack cfg none (xparseTop cfg (.core .eth) frame) = .ok frame := by
   intro tlvs frame
   obtain ⟨hh, hpar⟩ := lldp_parse c p t mid hc hp ht tc tp tt hmid
-  have hpack : xpack none (.eth e (.lldp tlvs)) = .ok frame := by
+  have hpack : xpack cfg none (.eth e (.lldp tlvs)) = .ok frame := by
     simp [xpack, xpackU, hh, ethHdr_ok e he, bind, Except.bind, pure, Except.pure, frame, tlvs]
-  have hparse : xparseTop (.core .eth) frame = .eth e (.lldp tlvs) := by
+  have hparse : xparseTop cfg (.core .eth) frame = .eth e (.lldp tlvs) := by
     have hlen : frame.length + 1 = (frame.length - 1) + 1 + 1 := by
       have : 14 ≤ frame.length := by simp [frame, ethBytes_length e he]
       omega
     unfold xparseTop
-    rw [hlen, xparse_eth _ none e _ he]
+    rw [hlen, xparse_eth cfg _ none e _ he]
     simp only [xEthNext, hty]
     simp only [show ((0x88cc : Nat) = 0x8100) = False by decide, show ((0x88cc : Nat) = 0x0806 ∨ (0x88cc : Nat) = 0x8035) = False by decide,
       show ((0x88cc : Nat) = 0x0800) = False by decide, show ((0x88cc : Nat) = 0x86dd) = False by decide, if_false, if_true]
-    have hx : xparse (frame.length - 1 + 1) none .lldp (lldpBytes tlvs) = lldpParse (lldpBytes tlvs) := rfl
+    have hx : xparse cfg (frame.length - 1 + 1) none .lldp (lldpBytes tlvs) = lldpParse (lldpBytes tlvs) := rfl
     rw [hx, hpar]
   exact ⟨hpack, hparse, by rw [hparse]; exact hpack⟩
 
